@@ -324,7 +324,6 @@ pub proof fn lemma_map_of_push<V>(items: Seq<(ClientID, V)>, c: ClientID, v: V)
 /// the map has at most as many clients as there were items
 pub proof fn lemma_map_of_len<V>(items: Seq<(ClientID, V)>)
     ensures
-        map_of(items).dom().finite(),
         map_of(items).len() <= items.len(),
     decreases items.len(),
 {
@@ -348,7 +347,7 @@ impl Decode for IdSet {
     @ret res
     @sig
         ensures
-            res is Ok ==> res->Ok_0@.dom().finite() && 2 * res->Ok_0@.len() < old(decoder).rest().len() - final(decoder).rest().len(),
+            res is Ok ==> 2 * res->Ok_0@.len() < old(decoder).rest().len() - final(decoder).rest().len(),
             res is Ok ==> ranges_ordered(res->Ok_0@),
             D::v1() ==> match dec_idset(old(decoder).rest()) {
                 Some((m, k)) => res is Ok && res->Ok_0@ == m && k <= old(decoder).rest().len() && final(decoder).rest() == old(decoder).rest().skip(k as int),
